@@ -326,3 +326,182 @@ def tsa_differential(kinds, n, seed=0):
     elif obs["value"] != model_value or (model_crashed is not None and sorted(int(x) for x in obs["errors"]) != model_crashed):
       bad.append({"schedule": k, "why": "model value %s crashed %s; real %s" % (model_value, model_crashed, obs)})
   return {"schedules": n, "visible_operations": ops, "disagreements": bad}
+
+
+# ---- stopping scenario (C12, C11 'for good') ---------------------------------------------------------------------------
+class ThreadProxy:
+  """stands for ao.thread: join/is_alive report to the director, then act on the real consumer thread"""
+
+  def __init__(self, director, name):
+    self.d, self.name = director, name
+    self.real = None
+
+  def join(self, timeout=None):
+    self.d.before(self.name, "join")
+    if self.real is threading.current_thread():
+      raise RuntimeError("cannot join current thread")
+    if self.real is not None:
+      self.real.join(timeout if self.d.free else 5)
+
+  def is_alive(self):
+    self.d.before(self.name, "is_alive")
+    return self.real is not None and self.real.is_alive()
+
+
+class RealStopping:
+  def __init__(self, sc, sysm):
+    from vf import hosts
+    info = sc.info
+    cap = info["capacity"]
+    hsm, ao = hosts.install_stubs(capacity=cap)
+    import miros.event as ev
+    vis, _, _ = R.visibility_from(sysm)
+    self.d = d = R.Director(vis)
+    self.info = info
+    self.log = []
+    self.marks = {}
+    rs, signals = ev.return_status, ev.signals
+    me = self
+    self.pend = [ev.Event(signal="P%d" % i, payload=i) for i in range(info["pending"])]
+
+    def state(chart, e):
+      if e.signal in (signals.ENTRY_SIGNAL, signals.INIT_SIGNAL, signals.EXIT_SIGNAL):
+        return rs.HANDLED
+      if e.signal_name.startswith(("P", "A", "B")) and len(e.signal_name) <= 2:
+        me.log.append((e.signal_name, len(d.log)))
+        if info["handler_stop"] and me.pend and e is me.pend[0]:
+          chart.stop()
+          me.marks["handler_stopped"] = len(d.log)
+        return rs.HANDLED
+      chart.temp.fun = chart.top
+      return rs.SUPER
+    self.obj = obj = ao.ActiveObject(name="replay")
+    obj.start_at(state)
+    ld = obj.locking_deque
+    ld.deque = R.make_deque(d, "D", cap, list(self.pend))
+    ld.locking_queue = R.make_queue(d, "Q", cap)
+    for _ in self.pend:
+      ld.locking_queue.put("ready")
+    self.task = R.make_event(d, "task_event", True)
+    self.fabric = R.make_event(d, "fabric_event", True)
+    obj.activeobject_task_event = self.task
+    obj.posted_events_queue = R.make_deque(d, "tracked", cap)
+    self.thread_proxy = ThreadProxy(d, "ao.thread")
+    obj.thread = self.thread_proxy
+    # timed sources through the real API: the timer thread stand-in records the real closure and its spec
+    counter = [0]
+    real_event_cls = ao.ThreadEvent
+
+    def new_flag():
+      i = counter[0]
+      counter[0] += 1
+      return R.make_event(d, "source%d.run" % i, False)
+    ao.ThreadEvent = new_flag
+
+    class FakeTime:
+      @staticmethod
+      def sleep(p):
+        d.before("time", "sleep")
+    ao.time = FakeTime
+    self.sources = []
+    self.ids = []
+    n0 = len(hosts.SimThread.registry)
+    for i in range(info["sources"]):
+      name = "A" if (i == 0 or not info["other_source"]) else "B"
+      e = ev.Event(signal=name)
+      self.ids.append(obj.post_fifo(e, period=1, times=info["times"], deferred=info["deferred"]))
+      self.sources.append(hosts.SimThread.registry[-1])
+    ao.ThreadEvent = real_event_cls
+    self.restore = lambda: setattr(ao, "time", __import__("time"))
+    self.ev_a = ev.Event(signal="A")
+    self.flags = [t.args[0].task_run_event for t in self.sources]
+    self.bodies = {0: self.caller_body(), 1: self.consumer_body()}
+    for i, tt in enumerate(info["timer_tids"]):
+      self.bodies[tt] = (lambda t=self.sources[i]: t.target(*t.args))
+
+  def caller_body(self):
+    info = self.info
+
+    def body():
+      if info["handler_stop"]:
+        return
+      if info["action"] == "stop":
+        self.obj.stop()
+      elif info["action"] == "cancel_event":
+        # an equal copy of the id, as a caller that got it over a network would hold
+        self.obj.cancel_event(type(self.ids[0])(str(self.ids[0])) if not isinstance(self.ids[0], str) else "".join(list(self.ids[0])))
+      else:
+        self.obj.cancel_events(self.ev_a)
+      self.marks["returned"] = len(self.d.log)
+    return body
+
+  def consumer_body(self):
+    def body():
+      self.thread_proxy.real = threading.current_thread()
+      self.obj.run_event(self.task, self.fabric, self.obj.queue)
+      self.d.before("ao.thread", "finish")
+    return body
+
+  def observe(self):
+    import collections
+    log = list(self.d.log)
+    ret = self.marks.get("returned")
+    timer_inserts = [k for k, (t, tgt, op) in enumerate(log) if t in self.info["timer_tids"] and tgt == "D" and op in ("append", "appendleft")]
+    return {"caller_returned_at_op": ret, "timer_inserts_at_ops": timer_inserts,
+            "timer_insert_after_return": bool(ret is not None and any(k >= ret for k in timer_inserts)),
+            "dispatches": [(n, k) for (n, k) in self.log],
+            "dispatch_after_return": bool(ret is not None and any(k >= ret for (_n, k) in self.log)),
+            "dispatch_after_handler_stop": bool("handler_stopped" in self.marks and any(k > self.marks["handler_stopped"] for (_n, k) in self.log)),
+            "source_flags_up": [threading.Event.is_set(f) for f in self.flags],
+            "tracked": len(list(collections.deque.__iter__(self.obj.posted_events_queue))),
+            "finished_threads": sorted(self.d.finished), "errors": {}}
+
+
+def stopping_replay(sc, sysm, res, states, infos, loop):
+  real = RealStopping(sc, sysm)
+  ok, detail, threads = R.run_threads(real.d, real.bodies, triples(infos))
+  time.sleep(0.05)
+  obs = real.observe()
+  real.d.release_all()
+  for f in real.flags:
+    threading.Event.clear(f)
+  threading.Event.clear(real.task)
+  for t in threads.values():
+    t.join(timeout=0.3)
+  real.restore()
+  return {"matched": ok, "detail": detail, "real": obs}
+
+
+def stopping_differential(kwargs, n, seed=0):
+  from vf.e2.check import build
+  rnd = random.Random(seed)
+  bad = []
+  ops = 0
+  for k in range(n):
+    sc, sysm = build("stopping", kwargs)
+    st = sysm.initial()
+    infos = []
+    for _ in range(90):
+      en = sysm.enabled_concrete(st)
+      if not en:
+        break
+      st, info = sysm.step_concrete(st, rnd.choice(en))
+      infos.append(info)
+    real = RealStopping(sc, sysm)
+    ok, detail, threads = R.run_threads(real.d, real.bodies, triples(infos))
+    time.sleep(0.02)
+    obs = real.observe()
+    real.d.release_all()
+    for f in real.flags:
+      threading.Event.clear(f)
+    threading.Event.clear(real.task)
+    for t in threads.values():
+      t.join(timeout=0.3)
+    real.restore()
+    ops += len(triples(infos))
+    flags_model = [bool(st[f + ".flag"]) for f in sc.info["flags"]]
+    if not ok:
+      bad.append({"schedule": k, "why": detail})
+    elif obs["source_flags_up"] != flags_model or obs["tracked"] != st["tracked.len"] or len(obs["dispatches"]) != st["g.dispatched"]:
+      bad.append({"schedule": k, "why": "model flags %s tracked %s dispatched %s; real %s" % (flags_model, st["tracked.len"], st["g.dispatched"], obs)})
+  return {"schedules": n, "visible_operations": ops, "disagreements": bad}
